@@ -614,13 +614,17 @@ func getReferenceModificationsFromColumn(dbModel *model.DatabaseModel, table, uu
 		}
 		return getReferenceModificationsFromSet(dbModel, table, uuid, column, v, oldSet)
 	case ovsdb.OvsMap:
-		return getReferenceModificationsFromMap(dbModel, table, uuid, column, v)
+		var oldMap ovsdb.OvsMap
+		if old != nil {
+			oldMap, _ = old.(ovsdb.OvsMap)
+		}
+		return getReferenceModificationsFromMap(dbModel, table, uuid, column, v, oldMap)
 	}
 	return nil
 }
 
-func getReferenceModificationsFromMap(dbModel *model.DatabaseModel, table, uuid, column string, value ovsdb.OvsMap) database.References {
-	if len(value.GoMap) == 0 {
+func getReferenceModificationsFromMap(dbModel *model.DatabaseModel, table, uuid, column string, modify, old ovsdb.OvsMap) database.References {
+	if len(modify.GoMap) == 0 {
 		return nil
 	}
 
@@ -635,29 +639,57 @@ func getReferenceModificationsFromMap(dbModel *model.DatabaseModel, table, uuid,
 	keySpec := database.ReferenceSpec{ToTable: keyRefTable, FromTable: table, FromColumn: column, FromValue: false}
 	valueSpec := database.ReferenceSpec{ToTable: valueRefTable, FromTable: table, FromColumn: column, FromValue: true}
 
-	refs := database.References{}
-	for k, v := range value.GoMap {
-		if keyRefTable != "" {
-			switch to := k.(type) {
-			case ovsdb.UUID:
-				if _, ok := refs[keySpec]; !ok {
-					refs[keySpec] = database.Reference{to.GoUUID: []string{from}}
-				} else if _, ok := refs[keySpec][to.GoUUID]; !ok {
-					refs[keySpec][to.GoUUID] = append(refs[keySpec][to.GoUUID], from)
-				}
+	// 'modify' is a difference: a pair identical to a pair of 'old' removes
+	// it, any other pair adds or replaces. A row is referenced through a
+	// key or a value of the map before and/or after the change, and it is
+	// only when that differs that the reference from this row changes.
+	after := make(map[interface{}]interface{}, len(old.GoMap)+len(modify.GoMap))
+	for k, v := range old.GoMap {
+		after[k] = v
+	}
+	for k, v := range modify.GoMap {
+		if ov, ok := old.GoMap[k]; ok && reflect.DeepEqual(ov, v) {
+			delete(after, k)
+		} else {
+			after[k] = v
+		}
+	}
+	referenced := func(m map[interface{}]interface{}) (keys, values map[string]bool) {
+		keys, values = map[string]bool{}, map[string]bool{}
+		for k, v := range m {
+			if to, ok := k.(ovsdb.UUID); ok && keyRefTable != "" {
+				keys[to.GoUUID] = true
+			}
+			if to, ok := v.(ovsdb.UUID); ok && valueRefTable != "" {
+				values[to.GoUUID] = true
 			}
 		}
-		if valueRefTable != "" {
-			switch to := v.(type) {
-			case ovsdb.UUID:
-				if _, ok := refs[valueSpec]; !ok {
-					refs[valueSpec] = database.Reference{to.GoUUID: []string{from}}
-				} else if _, ok := refs[valueSpec][to.GoUUID]; !ok {
-					refs[valueSpec][to.GoUUID] = append(refs[valueSpec][to.GoUUID], from)
+		return
+	}
+	keysBefore, valuesBefore := referenced(old.GoMap)
+	keysAfter, valuesAfter := referenced(after)
+
+	refs := database.References{}
+	toggle := func(spec database.ReferenceSpec, before, after map[string]bool) {
+		for to := range before {
+			if !after[to] {
+				if _, ok := refs[spec]; !ok {
+					refs[spec] = database.Reference{}
 				}
+				refs[spec][to] = []string{from}
+			}
+		}
+		for to := range after {
+			if !before[to] {
+				if _, ok := refs[spec]; !ok {
+					refs[spec] = database.Reference{}
+				}
+				refs[spec][to] = []string{from}
 			}
 		}
 	}
+	toggle(keySpec, keysBefore, keysAfter)
+	toggle(valueSpec, valuesBefore, valuesAfter)
 
 	return refs
 }
